@@ -371,6 +371,18 @@ func c15() {
 				p.Syscalls[gi].Action = vlib.RetErrno
 			}
 		}
+		if i%16 == 5 {
+			// a policy that denies nothing (allow and log only) is a policy like any other: its filter is installed, the target
+			// runs under it
+			p.DefaultAction = vlib.RetAllow
+			for gi := range p.Syscalls {
+				p.Syscalls[gi].Action = []seccomp.Action{vlib.RetAllow, vlib.RetLog}[(i/16+gi)%2]
+				if (i/16)%2 == 0 {
+					p.Syscalls[gi].Action = vlib.RetAllow
+				}
+			}
+			run.Count("valid_runs_with_a_policy_that_denies_nothing", 1)
+		}
 		spec := vlib.SpecOf(p, "x86_64")
 		comp := vlib.Compile(spec.Policy(), t)
 		if !comp.OK() || len(comp.Raw) > 4096 {
